@@ -322,6 +322,8 @@ static void push_lvalue_range (int code) {
   if (!((--sp)->type == T_NUMBER))
     error ("*Illegal 2nd index type to range lvalue.");
 
+  if (sp->u.number < -(int64_t)size - 1 || sp->u.number > (int64_t)size + 1)
+    error ("*The 2nd index to range lvalue must be >= -1 and < sizeof(indexed value)"); /* 64-bit check before narrowing */
   ind2 = (code & 0x01) ? (size - (int)sp->u.number) : (int)sp->u.number;
   if (++ind2 < 0 || (ind2 > size))
     error ("*The 2nd index to range lvalue must be >= -1 and < sizeof(indexed value)");
@@ -329,6 +331,8 @@ static void push_lvalue_range (int code) {
   if (!((--sp)->type == T_NUMBER))
     error ("*Illegal 1st index type to range lvalue");
 
+  if (sp->u.number < -(int64_t)size - 1 || sp->u.number > (int64_t)size + 1)
+    error ("*The 1st index to range lvalue must be >= 0 and <= sizeof(indexed value)"); /* 64-bit check before narrowing */
   ind1 = (code & 0x10) ? (size - (int)sp->u.number) : (int)sp->u.number;
 
   if (ind1 < 0 || ind1 > size)
@@ -2042,9 +2046,9 @@ void eval_instruction (const char *p) {
                 if ((sp - 1)->type != T_NUMBER)
                   error ("*Buffer indexes must be integers.");
 
+                if ((sp - 1)->u.number > (int64_t)sp->u.buf->size || (sp - 1)->u.number < 0)
+                  error ("*Buffer index out of bounds."); /* checked as 64-bit, before narrowing */
                 i = (int)(sp - 1)->u.number;
-                if ((i > (int)sp->u.buf->size) || (i < 0))
-                  error ("*Buffer index out of bounds.");
                 i = sp->u.buf->item[i];
                 free_buffer (sp->u.buf);
                 (--sp)->u.number = i;
@@ -2057,9 +2061,9 @@ void eval_instruction (const char *p) {
                   {
                     error ("*String indexes must be integers.");
                   }
+                if ((sp - 1)->u.number > (int64_t)SVALUE_STRLEN (sp) || (sp - 1)->u.number < 0)
+                  error ("*String index out of bounds."); /* checked as 64-bit, before narrowing */
                 i = (int)(sp - 1)->u.number;
-                if ((i > (int)SVALUE_STRLEN (sp)) || (i < 0))
-                  error ("*String index out of bounds.");
                 i = (unsigned char) sp->u.string[i];
                 free_string_svalue (sp);
                 (--sp)->u.number = i;
@@ -2071,12 +2075,12 @@ void eval_instruction (const char *p) {
 
                 if ((sp - 1)->type != T_NUMBER)
                   error ("*Array indexes must be integers.");
-                i = (int)(sp - 1)->u.number;
-                if (i < 0)
+                if ((sp - 1)->u.number < 0)
                   error ("*Array index must be positive or zero.");
                 arr = sp->u.arr;
-                if (i >= arr->size)
-                  error ("*Array index out of bounds.");
+                if ((sp - 1)->u.number >= (int64_t)arr->size)
+                  error ("*Array index out of bounds."); /* checked as 64-bit, before narrowing */
+                i = (int)(sp - 1)->u.number;
                 assign_svalue_no_free (--sp, &arr->item[i]);
                 free_array (arr);
                 break;
@@ -2107,9 +2111,9 @@ void eval_instruction (const char *p) {
                 if ((sp - 1)->type != T_NUMBER)
                   error ("*Indexing a buffer with an illegal type.");
 
+                if ((sp - 1)->u.number < 0 || (sp - 1)->u.number > (int64_t)sp->u.buf->size)
+                  error ("*Buffer index out of bounds."); /* checked as 64-bit, before narrowing */
                 i = sp->u.buf->size - (int)(sp - 1)->u.number;
-                if ((i > (int)sp->u.buf->size) || (i < 0))
-                  error ("*Buffer index out of bounds.");
 
                 i = sp->u.buf->item[i];
                 free_buffer (sp->u.buf);
@@ -2124,9 +2128,9 @@ void eval_instruction (const char *p) {
                   {
                     error ("*Indexing a string with an illegal type.");
                   }
+                if ((sp - 1)->u.number < 0 || (sp - 1)->u.number > (int64_t)len)
+                  error ("*String index out of bounds."); /* checked as 64-bit, before narrowing */
                 i = (int)(len - (sp - 1)->u.number);
-                if ((i > (int)len) || (i < 0))
-                  error ("*String index out of bounds.");
                 i = (unsigned char) sp->u.string[i];
                 free_string_svalue (sp);
                 (--sp)->u.number = i;
@@ -2138,9 +2142,9 @@ void eval_instruction (const char *p) {
 
                 if ((sp - 1)->type != T_NUMBER)
                   error ("*Indexing an array with an illegal type.");
+                if ((sp - 1)->u.number <= 0 || (sp - 1)->u.number > (int64_t)arr->size)
+                  error ("*Array index out of bounds."); /* checked as 64-bit, before narrowing */
                 i = arr->size - (int)(sp - 1)->u.number;
-                if (i < 0 || i >= (int)(arr->size))
-                  error ("*Array index out of bounds.");
                 assign_svalue_no_free (--sp, &arr->item[i]);
                 free_array (arr);
                 break;
